@@ -278,6 +278,23 @@ pub fn run_l2(cfg: &Cfg, prop: L2) -> i32 {
                     _ => {}
                 }
             }
+            // C01: runs in which no candidate evaluates (there is none left, or every expression
+            // fails) while an installed policy is no longer managed: the delete is still due
+            if prop == L2::C01 && step > 0 && ((step == steps - 1 && idx % 2 == 0) || r.chance(1, 4)) {
+                let installed: Vec<String> = managed.keys().filter(|n| eph.policies.contains_key(*n)).cloned().collect();
+                if let Some(v) = installed.first() {
+                    managed.remove(v);
+                    if r.chance(1, 2) {
+                        managed.clear();
+                        rep.count("l2_runs_without_any_candidate_and_a_delete_due");
+                    } else {
+                        for (_, v) in managed.iter_mut() {
+                            *v = ("AS-DOES-NOT-EXIST".to_string(), None);
+                        }
+                        rep.count("l2_runs_where_nothing_evaluates_and_a_delete_due");
+                    }
+                }
+            }
             // C03: from the second step on, make installed policies fail
             let mut failing: BTreeSet<String> = BTreeSet::new();
             let mut irr_down = false;
@@ -345,10 +362,12 @@ pub fn run_l2(cfg: &Cfg, prop: L2) -> i32 {
                         rep.violation("l2:run-failed-on-fault-free-workload", &format!("exit {:?}", run.exit), wit(json!({})));
                         break 'steps;
                     }
-                    let Some(c) = &committed else {
-                        rep.violation("l2:success-without-commit", "", wit(json!({})));
-                        break 'steps;
-                    };
+                    // what is in effect afterwards: the committed state, or, if the run did not
+                    // commit at all (nothing to do), what was in effect before
+                    if committed.is_none() {
+                        rep.count("l2_successful_runs_without_commit");
+                    }
+                    let c = committed.as_ref().unwrap_or(&before);
                     for (name, (_, e)) in &managed {
                         let Some(e) = e else { continue };
                         match c.policies.get(name) {
@@ -501,7 +520,9 @@ pub fn run_l2(cfg: &Cfg, prop: L2) -> i32 {
                     }
                 }
             }
-            eph = after;
+            // uncommitted changes of a closed session are discarded
+            eph = committed.clone().unwrap_or(before);
+            let _ = after;
         }
         irr.stop();
     }
